@@ -128,6 +128,8 @@ def pdks():
     out["gf180"] = {"module": gf, "compile": gf.compile, "table": tables(gfd, True), "xtors": gfd.xtors, "defaults": gf_defaults,
                     "regname": "gf180_hdl21.pdk_logic", "regmod": importlib.import_module("gf180_hdl21.pdk_logic")}
     a7tab = [("mos", None, key, mod, Mos) for key, mod in a7p._mos_modules.items() if not isinstance(key[1], str)]
+    # ... and every ASAP7 device by its model name (the slvt / sram flavours have no (type, threshold) pair of the generic Mos)
+    a7tab += [("mos", mod.name, key, mod, Mos) for key, mod in a7p._mos_modules.items()]
     out["asap7"] = {"module": a7, "compile": a7.compile, "table": a7tab, "xtors": {k: v for k, v in a7p._mos_modules.items()},
                     "defaults": lambda n: None, "regname": "asap7_hdl21.pdk", "regmod": a7p}
     sptab = [("mos", None, (h.MosType.NMOS,), spp.Nmos, Mos), ("mos", None, (h.MosType.PMOS,), spp.Pmos, Mos)]
@@ -214,13 +216,17 @@ def judge_device(rec, pname, P, entry, sizes):
         if pname == "asap7":
             params["vth"] = key[1]
     given_w = given_l = given_m = None
-    if sizes in ("both", "w-only"):
+    if sizes in ("both", "w-only", "frac-mult"):
         given_w = params["w"] = 777 * nano
-    if sizes in ("both", "l-only"):
+    if sizes in ("both", "l-only", "frac-mult"):
         given_l = params["l"] = 333 * nano
     if sizes == "both" and kind in ("mos", "cap", "bjt"):
         given_m = 3
         params["mult"] = "3" if kind == "cap" else 3  # (the generic capacitor declares its multiplier as a string)
+    if sizes == "frac-mult":
+        # a multiplier that is not a whole number: delivered as given, or refused descriptively - never rounded silently
+        given_m = 2.5
+        params["mult"] = "2.5" if kind == "cap" else 2.5
     label = f"{pname}:{kind}:{model or key}:{sizes}"
     case = {"kind": "device", "pdk": pname, "device_kind": kind, "model": str(model or key), "sizes": sizes}
     rec.case(key=label, nontrivial=True, sample=case if rec.evaluations % 150 == 9 else None)
@@ -239,6 +245,8 @@ def judge_device(rec, pname, P, entry, sizes):
         if not is_descriptive(e):
             rec.violation(f"compile-raises-undescriptive:{type(e).__name__}", f"[{label}] compile raised {type(e).__name__}: {str(e)[:100]!r}",
                           case=case, pdk=pname, device_kind=kind)
+        elif sizes == "frac-mult":
+            rec.count("compile.fractional-multiplier-refused")  # a descriptive refusal is one of the two accepted outcomes
         else:
             rec.violation("table-entry-not-compilable", f"[{label}] a device listed in the PDK's own table cannot be compiled: {type(e).__name__}: {str(e)[:120]}",
                           case=case, pdk=pname, device_kind=kind)
@@ -254,6 +262,12 @@ def judge_device(rec, pname, P, entry, sizes):
     if not _re.match(r"^[A-Za-z_][A-Za-z0-9_]*$", x.of.module.name or ""):
         rec.violation("device-name-malformed", f"[{label}] the selected device is called {x.of.module.name!r}, which is not a device name any netlist format can carry",
                       case=case, pdk=pname, device_kind=kind)
+    dparams = x.of.params
+    dnames = list(dparams) if isinstance(dparams, dict) else list(getattr(type(dparams), "__params__", {}))
+    leaked = [k for k in ("tp", "family", "vth", "model") if k in dnames and (dparams.get(k) if isinstance(dparams, dict) else getattr(dparams, k, None)) is not None]
+    if leaked:
+        rec.violation("selector-passed-to-device", f"[{label}] the compiled device {x.of.module.name} is given the generic primitive's selection parameters "
+                                                   f"{leaked} as device parameters (they end up in the netlist)", case=case, pdk=pname, device_kind=kind)
     if x.of.module is not mod:
         rec.violation("wrong-device-selected", f"[{label}] compile selected {x.of.module.name}, the table entry {model or key} is {mod.name}",
                       case=case, pdk=pname, device_kind=kind)
@@ -751,6 +765,8 @@ def run(ctx, rec):
         for entry in P["table"]:
             for sizes in ("both", "none", "w-only", "l-only"):
                 work.append(("dev", pname, entry, sizes))
+            if entry[0] in ("mos", "cap", "bjt"):
+                work.append(("dev", pname, entry, "frac-mult"))
         work.append(("triples", pname))
         work.append(("bogus", pname))
         work.append(("same-named", pname))
